@@ -1,5 +1,5 @@
-\* Lead: the model with the quirks of the code violates the contract (Inv_Default: rename of the default policy without makeDefault).  The counterexample is replayed on the real
-\* client and counts only if it reproduces there (known finding default_rp_dangling_after_rename).  Run with one worker: the shortest counterexample.
+\* Lead: the model with the quirks of the code violates the contract (Inv_Names: UpdateRetentionPolicy renames a policy to the empty name).  The counterexample is replayed on the real
+\* client and counts only if it reproduces there (known finding rp_renamed_to_empty_name).  Run with one worker: the shortest counterexample.
 SPECIFICATION Spec
 CONSTANTS
   DBs = {"d1", "d2"}
@@ -12,11 +12,11 @@ CONSTANTS
   XDurs = {99, 7}
   XSGDs = {0}
   XReps = {99}
-  UNames = {"-", "autogen", "r2", "r3"}
+  UNames = {"-", ""}
   UDurs = {99, 3}
   USGDs = {99}
   UFull = FALSE
-  AutoCreate = TRUE
+  AutoCreate = FALSE
   MaxSG = 1
   MaxOps = 3
   Record = TRUE
@@ -26,6 +26,6 @@ CONSTANTS
   RenameKeepsDefault = TRUE
   HalfYearIsLong = TRUE
   RenameAcceptsEmpty = TRUE
-INVARIANTS Inv_Default
+INVARIANTS Inv_Names
 VIEW View
 CHECK_DEADLOCK FALSE
